@@ -262,7 +262,7 @@ Definition built_doc (cls : Z) (a : sr_args) (root : item) (cu : refs_t * refs_t
 
 Definition base_guards (a : sr_args) (root : item) (cu : refs_t * refs_t) : Prop :=
   a_evidence a <> [] /\ a_ts_ok a = true /\
-  (a_verified a = true -> is_some (a_observer a) = true /\ is_some (a_org a) = true) /\
+  (a_verified a = true -> given (a_observer a) = true /\ given (a_org a) = true) /\
   single_root (a_content a) = Some root /\
   i_rel root = 0 /\ i_vt root = CONTAINER /\
   collect_evidence (a_root_cs a) (a_evidence a) root = Ok cu.
@@ -274,7 +274,8 @@ Proof.
   - intros H. destruct (a_evidence a) as [|e0 ev] eqn:EE; [discriminate|].
     destruct (a_ts_ok a); cbn [negb] in H; [|discriminate].
     destruct (a_verified a) eqn:EV; cbn [andb] in H.
-    + destruct (a_observer a) as [n|]; [|discriminate]. destruct (a_org a) as [o|]; [|discriminate].
+    + destruct (given (a_observer a)) eqn:Go; cbn [negb] in H; [|discriminate].
+      destruct (given (a_org a)) eqn:Gg; cbn [negb] in H; [|discriminate].
       destruct (a_content a) as [it|[|it [|it2 l]]] eqn:EC; cbn [bind] in H; try discriminate.
       all: destruct (i_rel it =? 0) eqn:ER; cbn [negb] in H; [|discriminate];
         destruct (vt_eqb (i_vt it) CONTAINER) eqn:EVt; cbn [negb] in H; [|discriminate];
@@ -292,10 +293,10 @@ Proof.
   - intros [root [cu [[G1 [G2 [G3 [G4 [G5 [G6 G7]]]]]] ->]]].
     destruct (a_evidence a) as [|e0 ev] eqn:EE; [congruence|].
     rewrite G2. cbn [negb].
-    assert (EV : (a_verified a && match a_observer a with None => true | Some _ => false end = false) /\
-                 (a_verified a && match a_org a with None => true | Some _ => false end = false)).
+    assert (EV : (a_verified a && negb (given (a_observer a)) = false) /\
+                 (a_verified a && negb (given (a_org a)) = false)).
     { destruct (a_verified a); [|split; reflexivity]. destruct (G3 eq_refl) as [Ho Hg].
-      destruct (a_observer a); [|discriminate]. destruct (a_org a); [|discriminate]. split; reflexivity. }
+      rewrite Ho, Hg. split; reflexivity. }
     destruct EV as [EV1 EV2]. rewrite EV1, EV2.
     assert (EC : match a_content a with
                  | CDataset it => Ok it | CSequence [it] => Ok it | CSequence _ => Err "ValueError" end = Ok root).
@@ -382,24 +383,46 @@ Proof.
 Qed.
 
 (* verification *)
+Lemma given_false_iff : forall o, given o = false <-> o = None \/ o = Some 0.
+Proof.
+  intros [n|]; cbn [given].
+  - destruct (n =? 0) eqn:E; cbn [negb].
+    + apply Z.eqb_eq in E. subst n. split; auto.
+    + apply Z.eqb_neq in E. split; [discriminate|]. intros [H|H]; [discriminate|]. inversion H. contradiction.
+  - split; auto.
+Qed.
+
+Lemma given_true_iff : forall o, given o = true <-> exists n, o = Some n /\ n <> 0.
+Proof.
+  intros [n|]; cbn [given].
+  - destruct (n =? 0) eqn:E; cbn [negb].
+    + apply Z.eqb_eq in E. split; [discriminate|]. intros [m [H Hm]]. inversion H. congruence.
+    + apply Z.eqb_neq in E. split; [eauto|reflexivity].
+  - split; [discriminate|]. intros [m [H _]]. discriminate.
+Qed.
+
+(* a detail is missing when it is absent (None) OR empty *)
 Lemma verified_needs_details : forall c a,
-  a_verified a = true -> (a_observer a = None \/ a_org a = None) -> sr_init c a = Err "ValueError".
+  a_verified a = true -> (given (a_observer a) = false \/ given (a_org a) = false) ->
+  sr_init c a = Err "ValueError".
 Proof.
   intros c a Hv Hn. unfold sr_init, sr_base_init. rewrite Hv.
   destruct (a_evidence a); [reflexivity|]. destruct (a_ts_ok a); cbn [negb]; [|reflexivity].
-  destruct Hn as [-> | ->]; cbn [andb]; [reflexivity|].
-  destruct (a_observer a); reflexivity.
+  destruct Hn as [-> | ->]; cbn [andb negb]; [reflexivity|].
+  destruct (given (a_observer a)); reflexivity.
 Qed.
 
 Lemma verified_recorded : forall c a d, sr_init c a = Ok d ->
   d_verified d = a_verified a /\ d_complete d = a_complete a /\ d_final d = a_final a /\
-  (a_verified a = true -> exists n o, a_observer a = Some n /\ a_org a = Some o /\ d_observer d = Some (n, o)) /\
+  (a_verified a = true -> exists n o, a_observer a = Some n /\ a_org a = Some o /\ d_observer d = Some (n, o) /\
+                                      n <> 0 /\ o <> 0) /\
   (a_verified a = false -> d_observer d = None).
 Proof.
   intros c a d H. apply sr_init_iff in H. destruct H as [root [cu [[_ [_ [G3 _]]] [-> _]]]].
   cbn [built_doc d_verified d_complete d_final d_observer]. repeat split.
   - intros Hv. destruct (G3 Hv) as [Ho Hg]. rewrite Hv.
-    destruct (a_observer a) as [n|]; [|discriminate]. destruct (a_org a) as [o|]; [|discriminate]. eauto.
+    apply given_true_iff in Ho. apply given_true_iff in Hg.
+    destruct Ho as [n [-> Hn]]. destruct Hg as [o [-> Ho]]. exists n, o. auto.
   - intros ->. reflexivity.
 Qed.
 
@@ -407,7 +430,7 @@ Qed.
    refuses exactly when some reference lacks supplied evidence *)
 Lemma sr_refused_iff : forall c a root,
   a_evidence a <> [] -> a_ts_ok a = true ->
-  (a_verified a = true -> is_some (a_observer a) = true /\ is_some (a_org a) = true) ->
+  (a_verified a = true -> given (a_observer a) = true /\ given (a_org a) = true) ->
   single_root (a_content a) = Some root -> i_rel root = 0 -> i_vt root = CONTAINER ->
   a_root_cs a = true -> refs_wf root ->
   (holds_3d c = false -> has_scoord3d root = false) ->
@@ -433,10 +456,10 @@ Proof.
   - assert (Herr : sr_init c a = Err "ValueError").
     { unfold sr_init, sr_base_init. destruct (a_evidence a) as [|e0 ev] eqn:EE; [congruence|].
       rewrite G2. cbn [negb].
-      assert (EV : (a_verified a && match a_observer a with None => true | Some _ => false end = false) /\
-                   (a_verified a && match a_org a with None => true | Some _ => false end = false)).
+      assert (EV : (a_verified a && negb (given (a_observer a)) = false) /\
+                   (a_verified a && negb (given (a_org a)) = false)).
       { destruct (a_verified a); [|split; reflexivity]. destruct (G3 eq_refl) as [Ho Hg].
-        destruct (a_observer a); [|discriminate]. destruct (a_org a); [|discriminate]. split; reflexivity. }
+        rewrite Ho, Hg. split; reflexivity. }
       destruct EV as [EV1 EV2]. rewrite EV1, EV2.
       assert (EC : match a_content a with
                    | CDataset it => Ok it | CSequence [it] => Ok it | CSequence _ => Err "ValueError" end = Ok root).
